@@ -41,7 +41,11 @@ Col(n, ys) == P(n, <<InA>> \o [i \in DOMAIN ys |-> Lamp("l" \o ToString(i), 0, y
 RowX(n, xs) == P(n, <<InA>> \o [i \in DOMAIN xs |-> Lamp("l" \o ToString(i), xs[i], 0)] \o [i \in DOMAIN xs |-> En("l" \o ToString(i), Bin(">", A, Num(i)))])
 Columns == {Col("column", <<30, 27, 24, 21, 18, 15, 12, 9, 6, 3, 0>>), Col("column", <<0, 3, 6, 9, 12, 15, 18, 21, 24, 27, 30>>), Col("column", <<15, 30, 0, 24, 6>>),
             RowX("column", <<30, 24, 18, 12, 6, 0>>), RowX("column", <<0, 6, 12, 18, 24, 30>>), Col("column", <<-20, -10, 0>>), RowX("column", <<-20, 5, -8>>)}
-All == Through \cup Columns \cup {Far(d) : d \in {12, 25, 45}} \cup {Far2(d) : d \in {10, 20}} \cup {Row(n, g) : n \in {6, 12}, g \in {2, 5}} \cup {Long(n) : n \in {6, 14, 26}}
+Obstacles == {PC("obstacle", <<Chest("c", 0, 0), SPlace("o", pr, Num(ox), Num(0), <<>>), Lamp("far", 40, 0), En("far", Bin(">", Iron("c"), Num(5)))>>, CI("c")) :
+                 pr \in {"assembling-machine-1", "storage-tank", "roboport", "train-stop"}, ox \in {6, 7, 8, 9}}
+         \cup {PC("obstacle", <<Chest("c", 0, 0), SPlace("o", pr, Num(0), Num(oy), <<>>), Lamp("far", 0, 40), En("far", Bin(">", Iron("c"), Num(5)))>>, CI("c")) :
+                 pr \in {"assembling-machine-1", "roboport"}, oy \in {7, 8}}
+All == Through \cup Obstacles \cup Columns \cup {Far(d) : d \in {12, 25, 45}} \cup {Far2(d) : d \in {10, 20}} \cup {Row(n, g) : n \in {6, 12}, g \in {2, 5}} \cup {Long(n) : n \in {6, 14, 26}}
        \cup {Wide(n) : n \in {5, 12}} \cup {MemFar}
 ASSUME PrintT(<<"NPROGS", Cardinality(All)>>)
 ASSUME JsonSerialize(IOEnv.GEN_OUT, SetToSeq(All))
